@@ -9,6 +9,7 @@ rsync -a --delete --exclude target --exclude .git /repo/ $S/repo/
 cd $S/repo
 echo "== apply patch"; git apply --verbose "$SD/patch.diff" 2>&1 | tail -3 || { echo "PATCH FAILED"; exit 3; }
 export CARGO_TARGET_DIR=$S/repo-target CARGO_NET_OFFLINE=true
+if [ -z "${SEEDCHECK_ONLY_OURS:-}" ]; then
 echo "== repo tests with the change"
 cargo test --workspace --no-fail-fast --offline 2>&1 | grep -E "^test result|^error" | awk '{p+=$4; f+=$6} END {print "passed="p" failed="f}'
 FF=""; [ "$FEAT" != "-" ] && FF="--features $FEAT"
@@ -20,6 +21,7 @@ git apply -R "$SD/patch.diff"
 cargo test -p $CRATE $FF --offline --test seed_demo 2>&1 | grep -E "^test result|^error" | head -5
 git apply "$SD/patch.diff"
 rm -f $S/repo/$CRATE/tests/seed_demo.rs
+fi
 unset CARGO_TARGET_DIR
 cd /verif
 for P in "$@"; do
